@@ -173,35 +173,30 @@ def eval_word(case):
 
 def spaces(tier, seed):
     q = tier == 'quick'
-    out = [EpochTables(12 if q else 14, 4 if q else 5)]
-    long_cfg = [(E, kind, method, centre) for E in ((40,) if q else (32, 48)) for kind in ('list', 'alias', 'sparse', 'dict')
-                for method in ('cycles', 'amp') for centre in ('peak', 'trough') if not (kind == 'sparse' and method == 'amp')]
-    if q:
-        long_cfg = [(40, 'list', 'cycles', 'peak'), (40, 'list', 'cycles', 'trough'), (40, 'list', 'amp', 'peak'),
-                    (40, 'alias', 'cycles', 'peak'), (40, 'alias', 'amp', 'trough'), (40, 'sparse', 'cycles', 'peak'),
-                    (40, 'sparse', 'cycles', 'trough'), (40, 'dict', 'cycles', 'trough')]
-        out.append(ProductSpace('W(2,10)-long-epochs', S.word_dims(['a', 'd'], 10) + [long_cfg], eval_word,
-                                describe='10-letter words (80 samples) in 2 epochs of 40 samples: epochs long enough (>= 3 cycles) for '
-                                         'per-epoch thresholds to change labels', bounds={'configs': len(long_cfg)}))
-    else:
+    out = [EpochTables(12, 4)]
+    long_q = [(40, 'list', 'cycles', 'peak'), (40, 'list', 'cycles', 'trough'), (40, 'list', 'amp', 'peak'),
+              (40, 'alias', 'cycles', 'peak'), (40, 'alias', 'amp', 'trough'), (40, 'sparse', 'cycles', 'peak'),
+              (40, 'sparse', 'cycles', 'trough'), (40, 'dict', 'cycles', 'trough')]
+    out.append(ProductSpace('W(2,10)-long-epochs', S.word_dims(['a', 'd'], 10) + [long_q], eval_word,
+                            describe='10-letter words (80 samples) in 2 epochs of 40 samples: epochs long enough (>= 3 cycles) for '
+                                     'per-epoch thresholds to change labels', bounds={'configs': len(long_q)}))
+    cfg = [c for c in CONFIGS if c[0] in (8, 12, 16) and (c[1] in ('none', 'dict', 'list') or (c[1] == 'alias' and c[0] == 12))]
+    al = S.alphabet(3)
+    out.append(ProductSpace('W(3,6)-epoched', S.word_dims(al, 6) + [cfg], eval_word, bounds={'letters': al, 'configs': len(cfg)},
+                            describe='all 6-letter words (48 samples) reshaped into epochs of 8/12/16 samples x option kinds x methods x centrings'))
+    al = S.alphabet(2)
+    cfg = [c for c in CONFIGS if c[0] in (4, 24)]
+    out.append(ProductSpace('W(2,6)-epoched', S.word_dims(al, 6) + [cfg], eval_word, bounds={'letters': al, 'configs': len(cfg)},
+                            describe='same with epochs of 4 and 24 samples'))
+    if not q:
+        out.append(EpochTables(14, 5))
+        long_cfg = [(E, kind, method, centre) for E in (32, 48) for kind in ('list', 'alias', 'sparse', 'dict')
+                    for method in ('cycles', 'amp') for centre in ('peak', 'trough') if not (kind == 'sparse' and method == 'amp')]
         out.append(ProductSpace('W(2,12)-long-epochs', S.word_dims(['a', 'd'], 12) + [long_cfg], eval_word, bounds={'configs': len(long_cfg)}))
-        out.append(ProductSpace('W(3,10)-long-epochs', S.word_dims(['a', 'd', 'n'], 10) + [[(40, k, m, c) for (_, k, m, c) in long_cfg[:len(long_cfg) // 2]]],
-                                eval_word))
-    if q:
-        cfg = [c for c in CONFIGS if c[0] in (8, 12, 16) and (c[1] in ('none', 'dict', 'list') or (c[1] == 'alias' and c[0] == 12))]
-        al = S.alphabet(3)
-        out.append(ProductSpace('W(3,6)-epoched', S.word_dims(al, 6) + [cfg], eval_word, bounds={'letters': al, 'configs': len(cfg)},
-                                describe='all 6-letter words (48 samples) reshaped into epochs of 8/12/16 samples x option kinds x methods x centrings'))
-        al = S.alphabet(2)
-        cfg = [c for c in CONFIGS if c[0] in (4, 24)]
-        out.append(ProductSpace('W(2,6)-epoched', S.word_dims(al, 6) + [cfg], eval_word, bounds={'letters': al, 'configs': len(cfg)},
-                                describe='same with epochs of 4 and 24 samples'))
-    else:
-        al = S.alphabet(4)
-        out.append(ProductSpace('W(4,6)-epoched', S.word_dims(al, 6) + [CONFIGS], eval_word, bounds={'letters': al, 'configs': len(CONFIGS)},
-                                describe='all 6-letter words (48 samples) reshaped into epochs of 4/8/12/16/24 samples x option kinds x methods x centrings'))
+        out.append(ProductSpace('W(3,6)-epoched-all', S.word_dims(S.alphabet(3), 6) + [CONFIGS], eval_word, bounds={'configs': len(CONFIGS)},
+                                describe='every epoch length x every option kind x methods x centrings'))
         al = ['a', 'd', 'n', 'z', 's', 'l']
-        cfg = [c for c in CONFIGS if c[0] in (8, 12) and c[1] != 'none']
+        cfg = [c for c in CONFIGS if c[0] in (8, 12) and c[1] in ('dict', 'list')]
         out.append(ProductSpace('W(6,5)-epoched', S.word_dims(al, 5) + [cfg], eval_word, bounds={'letters': al, 'configs': len(cfg)},
                                 describe='5-letter words incl. 6- and 10-sample letters (varying lengths; non-multiples skipped)'))
     return out
